@@ -32,7 +32,11 @@ def run(ctx):
                    minimum=2)
     rcf = ctx.rule('R-CASFRESH', 'every retry of a compare-exchange re-tests the refreshed expected value against the '
                    'sentinels the first attempt tested', minimum=0)
+    rsa = ctx.rule('R-SETARGS', 'Set(args...) of the promise stores exactly its arguments, forwarded in order; Set() stores the value with std::in_place', minimum=3)
     for cfg, fb in sorted(fbs.items()):
+        from rules import lib_promise
+        if (ctx.guard(lambda: lib_promise.check_set_args(ctx, fb, rsa, ('yaclib::Promise',))) or 0) < 3:
+            ctx.guard(lambda: ctx.broken('R-SETARGS: Set of the promise is not instantiated in %s' % cfg))
         ctx.guard(lambda: lib_order.check_cas_fresh(ctx, fb, rcf, lambda f: 'BaseCore' in f.qn))
         ctx.guard(lambda: lib_shape.check(ctx, fb, rsh, lambda qn: 'SetResultImpl' in qn, 2))
         ctx.guard(lambda: lib_core.check_commit(ctx, fb, rcm))
